@@ -14,10 +14,10 @@ PROPS["C12"] = prop(
     "clock and the fake store adapters (PCache / auth records written from the MySQL adapter's SQL). The {login}/{acc} wire path and "
     "authHttpRequest are not driven: the authenticators are called directly.",
     "5/C12", "auth-direct",
-    [Unit("TestC12Token", "server/auth/token", quick=5000, thorough=100000, shards_quick=4, shards_thorough=16),
-     Unit("TestC12APIKey", "server", quick=5000, thorough=100000, shards_quick=4, shards_thorough=16),
-     Unit("TestC12Code", "server/auth/code", quick=12000, thorough=400000, shards_quick=4, shards_thorough=16),
-     Unit("TestC12Basic", "server/auth/basic", quick=8, thorough=500, shards_quick=8, shards_thorough=16)],
+    [Unit("TestC12Token", "server/auth/token", quick=5000, thorough=60000, shards_quick=4, shards_thorough=16),
+     Unit("TestC12APIKey", "server", quick=5000, thorough=60000, shards_quick=4, shards_thorough=16),
+     Unit("TestC12Code", "server/auth/code", quick=12000, thorough=200000, shards_quick=4, shards_thorough=16),
+     Unit("TestC12Basic", "server/auth/basic", quick=8, thorough=300, shards_quick=8, shards_thorough=16)],
     ["token serial numbers are generated in 0..65535 (the signed field is 16 bits wide) and expiry stays below 2106 (32-bit seconds)",
      "two configured HMAC keys that pad/hash to the same 64-byte block are the same key (RFC 2104), not a 'foreign key'",
      "the last two seconds of a token's validity are unspecified (one-second field resolution plus the verifier's one-second margin)",
